@@ -1437,10 +1437,13 @@ func (li *layoutInterp) execCall(fn *ssa.Function, st *lpath, call *ssa.Call) []
 		return nil
 	}
 	switch callee.String() {
-	case "(encoding/binary.bigEndian).PutUint16", "(encoding/binary.bigEndian).PutUint32":
+	case "(encoding/binary.bigEndian).PutUint16", "(encoding/binary.bigEndian).PutUint32", "(encoding/binary.bigEndian).PutUint64":
 		n := 2
 		if strings.HasSuffix(callee.String(), "32") {
 			n = 4
+		}
+		if strings.HasSuffix(callee.String(), "64") {
+			n = 8
 		}
 		dst, okd := li.eval(st, cc.Args[len(cc.Args)-2]).(avSlice)
 		v, _ := li.eval(st, cc.Args[len(cc.Args)-1]).(avInt)
@@ -1463,10 +1466,13 @@ func (li *layoutInterp) execCall(fn *ssa.Function, st *lpath, call *ssa.Call) []
 			}
 		}
 		return nil
-	case "(encoding/binary.bigEndian).Uint16", "(encoding/binary.bigEndian).Uint32":
+	case "(encoding/binary.bigEndian).Uint16", "(encoding/binary.bigEndian).Uint32", "(encoding/binary.bigEndian).Uint64":
 		n := 2
 		if strings.HasSuffix(callee.String(), "32") {
 			n = 4
+		}
+		if strings.HasSuffix(callee.String(), "64") {
+			n = 8
 		}
 		src, oks := li.eval(st, cc.Args[len(cc.Args)-1]).(avSlice)
 		out := make(BV, 8*n)
